@@ -25,6 +25,9 @@ def run(cx):
     cx.rule("C20.R4", "what the tool prints is what the service sent (library side the CLI relies on): a reply is read as one NUL-terminated frame however it is segmented, and only the four errors whose FULL name is org.varlink.service.<X> are printed in the short standard form (shared with C07.R6)")
     from . import client_common as cc
     cc.check_recv_framing(cx, "C20.R4", "varlink")
+    # `call --more` ends with the reply that ends the call: the iterator protocol of recv()/next() (shared with C05.R2 / C07.R3)
+    cc.check_recv_protocol(cx, "C20.R4", "varlink")
+    cc.check_next(cx, "C20.R4", "varlink")
     from .C07 import _name_tests, STD_ERRORS
     fr = cx.mir.one("varlink", "<impl std::convert::From<Reply> for error::ErrorKind>::from")
     tests, fuzzy, _ = _name_tests(fr, Cfg(fr), DefUse(fr))
